@@ -47,7 +47,7 @@ def build_cmd(kind, k):
             "q24": lambda: dg.QueryDeviceStatus(DeviceShort(k)), "c24": lambda: dg.IdentifyDevice(DeviceShort(k))}[kind]()
 
 
-def make_world(driver, callers_spec, mode="plain", dup=False, exc_on=True):
+def make_world(driver, callers_spec, mode="plain", dup=False, exc_on=True, start_seq=1, foreign=False):
     """callers_spec: list of (kind, outcome)."""
     def make():
         table = {}
@@ -89,7 +89,15 @@ def make_world(driver, callers_spec, mode="plain", dup=False, exc_on=True):
                 callers.append(Caller(f"c{i + 1}", co, cancellable=(mode == "cancelmid" and i == 1)))
         if driver in ("tridonic", "hasseb"):
             from dalimc.aio.hidworld import HidWorld
-            w = HidWorld(driver, bus, callers, exceptions_on_send=exc_on)
+            reps = None
+            if foreign:
+                # another master's query and the answer to it, as the gateway reports traffic it only observes (Tridonic:
+                # mode 0x11, sequence number 0; hasseb: its observe channel) - deliverable at any point of the schedule
+                from dalimc.aio.hidworld import report
+                reps = [report(0x11, 0x73, bytes([0, 0, 0x7F, 0xA0]), 0), report(0x11, 0x72, bytes([0, 0, 0, 0x5A]), 0)] if driver == "tridonic" else None
+            w = HidWorld(driver, bus, callers, exceptions_on_send=exc_on, start_seq=start_seq, foreign=reps if foreign == "any-time" else None)
+            if reps and foreign != "any-time":
+                w.foreign_before = {i: reps for i in range(len(cmds))}      # ... before each of our transmissions (bus busy)
             w.dup = dup
             w.reorder_reports = not dup       # (the duplicate report of the firmware quirk belongs to a LATER bus frame: it cannot overtake)
         else:
@@ -465,13 +473,16 @@ def shards(tier):
         for kind in ("num", "off", "q24", "c24", "dt"):
             out.append(("noexc", drv, kind, 1 if tier == "quick" else 2))
     out.append(("dup", 2 if tier == "quick" else 3))
+    for start_seq in (1, 254, 255):
+        for kinds in (("num", "num"), ("num", "yn", "num")):
+            out.append(("foreign", "tridonic", kinds, start_seq, 2 if tier == "quick" else 3))
     out.append(("sync",))
     out.append(("atx-threads",))
     return out
 
 
-def _explore(res, driver, spec, mode, bound, dup=False, exc_on=True):
-    mk = make_world(driver, spec, mode, dup, exc_on)
+def _explore(res, driver, spec, mode, bound, dup=False, exc_on=True, start_seq=1, foreign=False):
+    mk = make_world(driver, spec, mode, dup, exc_on, start_seq, foreign)
     outs = set()
     for ch, got in explore(lambda c: execute(mk, c), bound):
         w, obs = got
@@ -483,6 +494,8 @@ def _explore(res, driver, spec, mode, bound, dup=False, exc_on=True):
     for v in res["violations"]:
         v["case"].setdefault("bound", bound)
         v["case"].setdefault("exc_on", exc_on)
+        v["case"].setdefault("start_seq", start_seq)
+        v["case"].setdefault("foreign", foreign)
     return outs
 
 
@@ -527,6 +540,15 @@ def run_shard(shard):
         for oa, ob in OUT_PAIRS:
             outs |= {(ka, kb, oa, ob, o) for o in _explore(res, "tridonic", [(ka, oa), (kb, ob)], "trx2", bound)}
         sample(res, {"driver": "tridonic", "two_in_flight": [ka, kb], "bound": bound})
+    elif k == "foreign":
+        # traffic of ANOTHER master (a query and its answer 0x5A) observed while our commands are queued / in flight, with the
+        # driver's sequence numbers at and across their wrap: an answer "intended for another" is never handed to a caller
+        _, drv, kinds, start_seq, bound = shard
+        for oc in ((("value", 1), ("value", 2), ("value", 3)), (("none",), ("value", 9), ("none",))):
+            spec = list(zip(kinds, oc))
+            for how in ("before-tx", "any-time"):
+                outs |= {(kinds, oc, how, o) for o in _explore(res, drv, spec, "plain", bound if how == "before-tx" else 1, start_seq=start_seq, foreign=how)}
+        sample(res, {"driver": drv, "foreign_traffic_observed": True, "start_seq": start_seq, "kinds": list(kinds), "bound": bound})
     elif k == "dup":
         for ka, kb in (("num", "num"), ("twice", "num"), ("off", "dt")):
             outs |= {(ka, kb, o) for o in _explore(res, "tridonic", [(ka, ("value", 5)), (kb, ("value", 6))], "plain", shard[1], dup=True)}
@@ -660,7 +682,7 @@ def replay(case):
         return [v for v in run_shard(("sync",))["violations"] if v["case"]["driver"] == drv and v["case"]["spec"] == case["spec"]
                 and v["case"].get("multi") == case.get("multi") and v["case"].get("foreign") == case.get("foreign")]
     bound = case.get("bound", 2)
-    mk = make_world(drv, spec, mode, exc_on=case.get("exc_on", True))
+    mk = make_world(drv, spec, mode, exc_on=case.get("exc_on", True), start_seq=case.get("start_seq", 1), foreign=case.get("foreign") if isinstance(case.get("foreign"), str) else False)
     first = None
     for ch, got in explore(lambda c: execute(mk, c), bound):
         w, obs = got
